@@ -415,7 +415,7 @@ func (f *g2lFn) addrOf(x *ast.UnaryExpr) string {
 	if o == nil || f.names[o] == "" || o.Parent() == f.g.pkg.Scope() {
 		f.fail("`%s`: the address of something other than a local variable", f.src(x))
 	}
-	if f.mutated[o] && !f.addrSafe(x, o) { // go2lean_effects.go: assigned only before this point
+	if f.mutated[o] && !(f.g.effectsOn() && f.addrSafe(x, o)) { // go2lean_effects.go: assigned only before this point
 		f.fail("`%s`: the variable is assigned after its declaration (the pointer would see the change)", f.src(x))
 	}
 	if f.inLoop > 0 {
